@@ -31,17 +31,21 @@ static void analyse_log(const char* ctx) { long n = atomic_load(&NEV); if (n > M
 }
 
 /* ---- batch transcript ----------------------------------------------------------------------------------------- */
+static int bt_step(carquet_batch_reader_t* br, carquet_reader_t* rd, const int32_t* proj, tx_t* x, int* nbp);
 static void batch_transcript(carquet_reader_t* rd, int threads, int batch_size, const int32_t* proj, int nproj, tx_t* x) {
     carquet_error_t err = CARQUET_ERROR_INIT; carquet_batch_reader_config_t cfg; carquet_batch_reader_config_init(&cfg); cfg.batch_size = batch_size; cfg.num_threads = threads; if (proj) { cfg.column_indices = proj; cfg.num_columns = nproj; }
     carquet_batch_reader_t* br = carquet_batch_reader_create(rd, &cfg, &err); if (!br) { tx_add(x, "create FAILED %d", err.code); return; }
-    const carquet_schema_t* s = carquet_reader_schema(rd); int nb = 0;
-    for (;;) { carquet_row_batch_t* b = NULL; carquet_status_t st = carquet_batch_reader_next(br, &b); if (st != CARQUET_OK || !b) { tx_add(x, "end status=%d batches=%d", st, nb); break; }
+    int nb = 0; while (bt_step(br, rd, proj, x, &nb)) {}
+    carquet_batch_reader_free(br);
+}
+static int bt_step(carquet_batch_reader_t* br, carquet_reader_t* rd, const int32_t* proj, tx_t* x, int* nbp) { const carquet_schema_t* s = carquet_reader_schema(rd); int nb = *nbp;
+    { carquet_row_batch_t* b = NULL; carquet_status_t st = carquet_batch_reader_next(br, &b); if (st != CARQUET_OK || !b) { tx_add(x, "end status=%d batches=%d", st, nb); return 0; }
         int64_t nr = carquet_row_batch_num_rows(b); tx_add(x, "batch %d rows=%lld", nb, (long long)nr);
         for (int c = 0; c < carquet_row_batch_num_columns(b); c++) { const void* d = NULL; const uint8_t* bm = NULL; int64_t nv = 0; carquet_status_t cs = carquet_row_batch_column(b, c, &d, &bm, &nv); int fc = proj ? proj[c] : c; int e = s->leaf_indices[fc]; int type = s->elements[e].has_type ? (int)s->elements[e].type : 6; int32_t tl = s->elements[e].type_length;
             int64_t nulls = 0; uint64_t hb = 0; if (bm && s->max_def_levels[fc] > 0) for (int64_t q = 0; q < nv; q++) { int bit = (bm[q / 8] >> (q % 8)) & 1; nulls += bit; hb = hb * 31 + (uint64_t)bit; }
             tx_add(x, " col %d st=%d nv=%lld nulls=%lld bm=%llx vals=%llx", c, cs, (long long)nv, (long long)nulls, (unsigned long long)hb, (unsigned long long)(cs == CARQUET_OK && d ? tx_hash_values(type, tl, d, nv - nulls) : 0)); }
-        carquet_row_batch_free(b); if (++nb > 200000) break; }
-    carquet_batch_reader_free(br);
+        carquet_row_batch_free(b); *nbp = ++nb; if (nb > 200000) return 0; }
+    return 1;
 }
 static int tx_equal(const tx_t* a, const tx_t* b, char* la, char* lb, size_t cap) { const char* p = a->p ? a->p : ""; const char* q = b->p ? b->p : ""; la[0] = lb[0] = 0;
     while (*p || *q) { const char* ep = strchr(p, '\n'); const char* eq = strchr(q, '\n'); size_t np = ep ? (size_t)(ep - p) : strlen(p), nq = eq ? (size_t)(eq - q) : strlen(q); if (np != nq || memcmp(p, q, np)) { snprintf(la, cap, "%.*s", (int)(np < cap - 1 ? np : cap - 1), p); snprintf(lb, cap, "%.*s", (int)(nq < cap - 1 ? nq : cap - 1), q); return 0; } p = ep ? ep + 1 : p + np; q = eq ? eq + 1 : q + nq; } return 1; }
@@ -79,13 +83,15 @@ static void batch_section(int scale, const char* dir) {
 
 /* ---- concurrent first use ----------------------------------------------------------------------------------------- */
 typedef struct { const char* path; int mode; tx_t tx; pthread_barrier_t* bar; int ok; } fu_arg_t;
-static void whole_file_transcript(const char* path, int mode, tx_t* x, int* ok) { carquet_error_t err = CARQUET_ERROR_INIT; ropen_t o; if (!rd_open(&o, path, mode, 1, 1, &err)) { tx_add(x, "open FAILED %d", err.code); *ok = 0; return; } *ok = 1;
+static void handle_transcript(ropen_t* op, tx_t* x);
+static void whole_file_transcript(const char* path, int mode, tx_t* x, int* ok) { carquet_error_t err = CARQUET_ERROR_INIT; ropen_t o; if (!rd_open(&o, path, mode, 1, 1, &err)) { tx_add(x, "open FAILED %d", err.code); *ok = 0; return; } *ok = 1; handle_transcript(&o, x); rd_close(&o); }
+static void handle_transcript(ropen_t* op, tx_t* x) { carquet_error_t err = CARQUET_ERROR_INIT; ropen_t o = *op;
     const carquet_schema_t* s = carquet_reader_schema(o.rd); int ng = carquet_reader_num_row_groups(o.rd), nc = carquet_reader_num_columns(o.rd); tx_add(x, "rows=%lld groups=%d cols=%d", (long long)carquet_reader_num_rows(o.rd), ng, nc);
     for (int g = 0; g < ng; g++) for (int c = 0; c < nc; c++) { carquet_column_reader_t* cr = carquet_reader_get_column(o.rd, g, c, &err); if (!cr) { tx_add(x, "get %d %d FAILED", g, c); continue; } int e = s->leaf_indices[c]; int type = s->elements[e].has_type ? (int)s->elements[e].type : 6; int32_t tl = s->elements[e].type_length; int16_t md = s->max_def_levels[c];
         size_t aes = type == CARQUET_PHYSICAL_BYTE_ARRAY ? sizeof(carquet_byte_array_t) : type == 0 ? 1 : type == 1 || type == 4 ? 4 : type == 3 ? 12 : type == 7 ? (size_t)tl : 8;
         while (carquet_column_has_next(cr)) { int64_t k = 257; void* v = malloc((size_t)k * aes + 1); int16_t* d = malloc((size_t)k * 2); int64_t n = carquet_column_read_batch(cr, v, k, d, NULL); if (n <= 0) { tx_add(x, "read %d %d -> %lld", g, c, (long long)n); free(v); free(d); break; } int64_t nn = 0; for (int64_t q = 0; q < n; q++) if (d[q] == md) nn++; tx_add(x, "c %d %d n=%lld d=%llx v=%llx", g, c, (long long)n, (unsigned long long)v_hash(d, (size_t)n * 2, 3), (unsigned long long)tx_hash_values(type, tl, v, nn)); free(v); free(d); }
         carquet_column_reader_free(cr); }
-    batch_transcript(o.rd, 1, 333, NULL, 0, x); rd_close(&o); }
+    batch_transcript(o.rd, 1, 333, NULL, 0, x); }
 static void* fu_thread(void* p) { fu_arg_t* a = p; pthread_barrier_wait(a->bar); whole_file_transcript(a->path, a->mode, &a->tx, &a->ok); return NULL; }
 static void firstuse_section(int nthreads, const char* path) { pthread_barrier_t bar; pthread_barrier_init(&bar, NULL, (unsigned)nthreads); fu_arg_t args[16]; pthread_t th[16]; char la[300], lb[300], key[160];
     /* NOTE: no carquet call has happened in this process yet (main() skips carquet_init for this mode) */
@@ -96,11 +102,41 @@ static void firstuse_section(int nthreads, const char* path) { pthread_barrier_t
         free(solo.p); }
     for (int i = 0; i < nthreads; i++) free(args[i].tx.p); }
 
+/* ---- reader pool: one thread opens N handles, N other threads use one each at the same time ------------------------------
+ * ("independent reader handles ... used concurrently from different threads ... each return the same content as when used alone").
+ * Nothing a handle owns may be shared with another handle through the thread that opened it. */
+typedef struct { ropen_t o; tx_t tx; pthread_barrier_t* bar; const char* path; int mode; } pool_arg_t;
+static void* pool_thread(void* p) { pool_arg_t* a = p; pthread_barrier_wait(a->bar); handle_transcript(&a->o, &a->tx); return NULL; }
+static void pool_section(int nthreads, const char* listfile) { char* paths[64]; int np = 0; FILE* lf = fopen(listfile, "r"); if (!lf) exit(2); char line[700]; while (np < 64 && fgets(line, sizeof line, lf)) { line[strcspn(line, "\n")] = 0; if (line[0]) paths[np++] = strdup(line); } fclose(lf); if (!np) exit(2);
+    char la[300], lb[300], key[160]; if (nthreads > 16) nthreads = 16;
+    for (int round = 0; round < np; round++) { pthread_barrier_t bar; pthread_barrier_init(&bar, NULL, (unsigned)nthreads); pool_arg_t args[16]; pthread_t th[16]; int opened = 0; int same = (int)vrng_below(&R, 3) == 0;
+        for (int i = 0; i < nthreads; i++) { memset(&args[i], 0, sizeof args[i]); args[i].path = paths[(round + (same ? 0 : i)) % np]; args[i].mode = (int)vrng_below(&R, 4) ? IO_FREAD : (int)vrng_below(&R, 3); args[i].bar = &bar; carquet_error_t err = CARQUET_ERROR_INIT; if (!rd_open(&args[i].o, args[i].path, args[i].mode, 1, 1, &err)) { args[i].o.rd = NULL; } else opened++; }
+        if (opened != nthreads) { for (int i = 0; i < nthreads; i++) if (args[i].o.rd) rd_close(&args[i].o); v_count("pool_rounds_with_refused_file"); pthread_barrier_destroy(&bar); continue; }
+        for (int i = 0; i < nthreads; i++) pthread_create(&th[i], NULL, pool_thread, &args[i]);
+        for (int i = 0; i < nthreads; i++) pthread_join(th[i], NULL);
+        for (int i = 0; i < nthreads; i++) rd_close(&args[i].o);
+        for (int i = 0; i < nthreads; i++) { tx_t solo = {0}; int ok = 0; whole_file_transcript(args[i].path, args[i].mode, &solo, &ok); v_case(v_hash(args[i].path, strlen(args[i].path), (uint64_t)i * 131 + (uint64_t)round)); v_count("pool_handles_used_concurrently");
+            if (!tx_equal(&solo, &args[i].tx, la, lb, sizeof la)) { snprintf(key, sizeof key, "pool:handle-opened-elsewhere-differs-from-solo:%s", IO_NAME[args[i].mode]); v_viol(key, "%d handles opened by one thread, used by %d threads (%s files): handle %d on %s: solo[%s] pooled[%s]", nthreads, nthreads, same ? "same" : "different", i, args[i].path, la, lb); }
+            free(solo.p); free(args[i].tx.p); }
+        /* two handles interleaved on ONE thread: column by column, alternating */
+        { ropen_t a, b; carquet_error_t err = CARQUET_ERROR_INIT; const char* pa = paths[round], *pb = paths[(round + 1) % np]; if (rd_open(&a, pa, IO_FREAD, 1, 1, &err)) { if (rd_open(&b, pb, IO_FREAD, 1, 1, &err)) {
+            tx_t ta = {0}, tb = {0}, sa = {0}, sb = {0}; carquet_batch_reader_config_t cfg; carquet_batch_reader_config_init(&cfg); cfg.batch_size = 97; carquet_batch_reader_t* ba = carquet_batch_reader_create(a.rd, &cfg, &err); carquet_batch_reader_t* bb = carquet_batch_reader_create(b.rd, &cfg, &err);
+            if (ba && bb) { int da = 0, db = 0, na = 0, nb = 0; while (!da || !db) { if (!da && !bt_step(ba, a.rd, NULL, &ta, &na)) da = 1; if (!db && !bt_step(bb, b.rd, NULL, &tb, &nb)) db = 1; } }
+            if (ba) carquet_batch_reader_free(ba); if (bb) carquet_batch_reader_free(bb); rd_close(&b); rd_close(&a);
+            for (int w = 0; w < 2; w++) { ropen_t o; if (!rd_open(&o, w ? pb : pa, IO_FREAD, 1, 1, &err)) continue; carquet_batch_reader_t* br = carquet_batch_reader_create(o.rd, &cfg, &err); tx_t* t = w ? &sb : &sa; if (br) { int n0 = 0; while (bt_step(br, o.rd, NULL, t, &n0)) {} carquet_batch_reader_free(br); } rd_close(&o); }
+            v_count("interleaved_handle_pairs_on_one_thread");
+            if (!tx_equal(&sa, &ta, la, lb, sizeof la)) v_viol("pool:interleaved-handles-on-one-thread-differ-from-solo", "%s interleaved with %s: solo[%s] interleaved[%s]", pa, pb, la, lb);
+            if (!tx_equal(&sb, &tb, la, lb, sizeof la)) v_viol("pool:interleaved-handles-on-one-thread-differ-from-solo", "%s interleaved with %s: solo[%s] interleaved[%s]", pb, pa, la, lb);
+            free(ta.p); free(tb.p); free(sa.p); free(sb.p); } else rd_close(&a); } }
+        pthread_barrier_destroy(&bar); }
+    for (int i = 0; i < np; i++) free(paths[i]); }
+
 int main(int argc, char** argv) {
     if (argc < 5) return 2; uint64_t seed = strtoull(argv[2], 0, 10); vrng_seed(&R, seed * 2713 + 3);
     const char* dl = getenv("CQV_IO_DELAY_PERMILLE"); DELAY_PM = dl ? atoi(dl) : 0; if (getenv("CQV_IO_LOG")) { EV = calloc(MAXEV, sizeof(ioev_t)); }
     if (!strcmp(argv[1], "batch")) { (void)carquet_init(); batch_section(atoi(argv[3]), argv[4]); }
     else if (!strcmp(argv[1], "firstuse")) firstuse_section(atoi(argv[3]), argv[4]);
+    else if (!strcmp(argv[1], "pool")) { (void)carquet_init(); pool_section(atoi(argv[3]), argv[4]); }
     else if (!strcmp(argv[1], "batchfiles")) { (void)carquet_init(); /* argv[4] = list file: one parquet path per line (reference-written: dictionary pages, checksums, nesting, all codecs) */
         FILE* lf = fopen(argv[4], "r"); if (!lf) return 2; char line[700]; int64_t ci = 0; while (fgets(line, sizeof line, lf)) { line[strcspn(line, "\n")] = 0; if (!line[0]) continue; carquet_error_t err = CARQUET_ERROR_INIT; carquet_reader_t* rd = carquet_reader_open(line, NULL, &err); if (!rd) { v_count("reference_files_refused_at_open"); continue; }
             int nc = carquet_reader_num_columns(rd); int codec = 0; { carquet_row_group_metadata_t m; (void)m; const parquet_file_metadata_t* md = &rd->metadata; if (md->num_row_groups > 0 && md->row_groups[0].num_columns > 0 && md->row_groups[0].columns[0].has_metadata) codec = (int)md->row_groups[0].columns[0].metadata.codec; } carquet_reader_close(rd);
